@@ -145,6 +145,7 @@ def run(ctx, rep):
     unit_rule(f, P, rep)
     from . import c09
     c09.classification_rule(f, rep, 'C01.7')
+    c09.read_predicate_rule(f, rep, 'C01.10')
     from . import c08
     c08.grant_rule(f, P, rep, 'C01.8')
     # frame condition: a write that replaces a compressed cluster releases exactly the host clusters that extent touches - one
